@@ -5,6 +5,7 @@
    positions (C20) and the absence of panics (C01).                            *)
 EXTENDS JsonText, Errors, Json, IOUtils
 Rec == ndJsonDeserialize(IOEnv.TRACE)
+CONSTANT Checks      \* subset of {"verdict", "value", "errpos", "panic"}: which clauses this run decides
 VARIABLE l
 vars == <<l>>
 
@@ -55,11 +56,13 @@ DocChecks(r) ==
                      [] sem = "kind:bool" -> strictOk /\ bs.root.t = "bool"
                      [] sem = "kind:null" -> strictOk /\ bs.root.t = "null"
       SpecVal(sem) == IF sem \in {"pstrict", "plax"} THEN ps.root ELSE bs.root
+      amb == PrefixAmbiguous(r.b, TRUE)
       Bad(ep) == LET x == r.res[ep] IN
-                 \/ x.panic
-                 \/ x.ok # Want(x.sem)
-                 \/ (x.ok /\ Has(x, "v") /\ Has(x.v, "t") /\ x.v.t # "nodump" /\ ~ValMatches(SpecVal(x.sem), x.v))
-                 \/ (~x.ok /\ ~x.panic /\ Has(x, "err") /\ ~ErrOk(Full(r, x), x.err))
+                 \/ ("panic" \in Checks /\ x.panic)
+                 \/ ("verdict" \in Checks /\ ~x.panic /\ x.ok # Want(x.sem) /\ ~(amb /\ x.sem \in {"pstrict", "plax"}))
+                 \/ ("value" \in Checks /\ x.ok /\ Has(x, "v") /\ Has(x.v, "t") /\ x.v.t # "nodump"
+                       /\ ~ValMatches(SpecVal(x.sem), x.v))
+                 \/ ("errpos" \in Checks /\ ~x.ok /\ ~x.panic /\ Has(x, "err") /\ ~ErrOk(Full(r, x), x.err))
   IN {ep \in DOMAIN r.res : Bad(ep)}
 
 Init == l = 1
